@@ -258,6 +258,17 @@ def stepLine (s : State) (args : List String) : State × String :=
   | "reset" :: rest =>
     let s' := reset rest
     (s', "ok " ++ renderState s' (allDenoms s'))
+  | "pc2" :: caller :: rest =>
+    -- two precompile calls by one contract in ONE transaction, each tolerated on failure: two consecutive operations of the
+    -- history (`ok` when both succeeded; a call that fails leaves nothing, the other one stands)
+    let first := rest.takeWhile (· ≠ "then")
+    let second := (rest.dropWhile (· ≠ "then")).drop 1
+    match parseOp ("pc" :: "proxy" :: caller :: first), parseOp ("pc" :: "proxy" :: caller :: second) with
+    | some o1, some o2 =>
+      let (s1, ok1) := match exec s o1 with | some x => (x, true) | none => (s, false)
+      let (s2, ok2) := match exec s1 o2 with | some x => (x, true) | none => (s1, false)
+      (s2, (if ok1 && ok2 then "ok " else "fail ") ++ renderState s2 (allDenoms s2))
+    | _, _ => (s, "bad-op")
   | _ =>
     match parseOp args with
     | none => (s, "bad-op")
